@@ -17,12 +17,14 @@
   including pushes).
 
   Hypotheses of the full theorems (`eval_equiv`, `eval_stack`, `verify_equiv`):
-  * `0 ≤ c.inIdx` — the reference takes an unsigned input index (negative indices: C07, D7);
+  * `SigHashOK c` — `RawSignatureHash` returns a digest for every script code that tokenises (true of the
+    real one for a transaction in wire range and `0 ≤ inIdx` or a negative index that wraps around
+    `vin` and `vout`: `C06.Concrete.sigHashOK_real`; the other negative indices: C07, D7);
   * `CodesepInsensitive c.env` — the signature check does not depend on a leading
     OP_CODESEPARATOR of the script code: the model keeps the last executed separator in front of the
     subscript, the reference starts after it, and the legacy signature hash removes every
-    separator before hashing (C03 `findAndDelete_codesep`);
-  * `HashesOK` — hash outputs are at most 520 bytes (20 / 32 for the real ones);
+    separator before hashing (proved for the real one: `C06.Concrete.codesepInsensitive_real`);
+  * `HashesOK` — hash outputs are at most 520 bytes (20 / 32 for the real ones: `C06.Concrete.hashesOK_real`);
   * for `EvalScript` from a caller-supplied stack: at most 1 000 items of less than 2³² bytes
     (C07's invariant carries this through the run; `VerifyScript` starts from the empty stack).
   The `_partial` variants need none of these and hold for scripts without the four signature opcodes.
@@ -145,34 +147,54 @@ theorem findAndDelete_equiv (cap : Captured) (script sig : Bytes) (h : sig.lengt
       else .ok (Ref.findAndDelete script (Ref.pushEnc sig)) :=
   findAndDelete_eq cap script _ (pushEnc_pat sig h)
 
+/-- `step_equiv_full`: one iteration of the interpreter loop on corresponding states, EVERY opcode
+    class (the signature-checking opcodes included).  `tailP` stands for "the script has a malformed
+    push further on": only then may the model stop with CScriptInvalidError (raised by the `raw_iter`
+    inside `FindAndDelete`) while the reference carries on — and fails at that push
+    (`evalLoop_tail_fail`). -/
+theorem step_equiv_full (c : Ctx) (fl : Flags) (script : Bytes) (op : RawOp) (pc' code : Bytes) (st : St)
+    (tailP : Prop)
+    (hd1 : op.opcode ≤ 0x4e → op.data.isSome) (hd2 : op.opcode > 0x4e → op.data = none)
+    (hsep : op.opcode = 0xab → script.drop op.sopIdx = 0xab :: pc')
+    (hcode : CodeRel script st.pbegin code) (hnop : st.nOpCount ≤ MAX_OPS_PER_SCRIPT)
+    (hsh : SigHashOK c) (hcs : CodesepInsensitive c.env) (hel : ∀ x ∈ st.stack, x.length < 2 ^ 32)
+    (htl : (rawIter (script.drop st.pbegin)).2.isSome → tailP) (hsl : script.length ≤ MAX_SCRIPT_SIZE) :
+    match step c fl script op st with
+    | .ok st' => ∃ code', Ref.loopBody c.env fl op.opcode (op.data.getD []) pc' (toRef st code) =
+        some (toRef st' code') ∧ CodeRel script st'.pbegin code' ∧ st'.nOpCount ≤ MAX_OPS_PER_SCRIPT ∧
+        (st'.pbegin = st.pbegin ∨ st'.pbegin = op.sopIdx)
+    | .error e => Ref.loopBody c.env fl op.opcode (op.data.getD []) pc' (toRef st code) = none ∨
+        (tailP ∧ ∃ cap, e = .invalid cap) :=
+  step_simT c fl script op pc' code st tailP hd1 hd2 hsep hcode hnop hsh hcs hel htl hsl
+
 /-- `eval_equiv`: for every script (arbitrary bytes, every opcode), flag set and initial stack
     within the limits, `EvalScript` fails exactly when the reference fails, and otherwise leaves
     exactly the reference's final stack -/
 theorem eval_equiv (c : Ctx) (fl : Flags) (stack : List Bytes) (script : Bytes) (B : Nat)
-    (hB : 520 ≤ B) (hB2 : B < 2 ^ 32) (hh : HashesOK c.env.hashes) (hidx : 0 ≤ c.inIdx)
+    (hB : 520 ≤ B) (hB2 : B < 2 ^ 32) (hh : HashesOK c.env.hashes) (hsh : SigHashOK c)
     (hcs : CodesepInsensitive c.env) (hs : stack.length ≤ 1000) (he : ∀ x ∈ stack, x.length ≤ B) :
     match evalScript c fl stack script with
     | .ok s' => Ref.evalScript c.env fl stack script = some s'
     | .error _ => Ref.evalScript c.env fl stack script = none :=
-  evalScript_simT c fl stack script B hB hB2 hh hidx hcs hs he
+  evalScript_simT c fl stack script B hB hB2 hh hsh hcs hs he
 
 /-- fails ↔ fails -/
 theorem eval_fails_iff (c : Ctx) (fl : Flags) (stack : List Bytes) (script : Bytes) (B : Nat)
-    (hB : 520 ≤ B) (hB2 : B < 2 ^ 32) (hh : HashesOK c.env.hashes) (hidx : 0 ≤ c.inIdx)
+    (hB : 520 ≤ B) (hB2 : B < 2 ^ 32) (hh : HashesOK c.env.hashes) (hsh : SigHashOK c)
     (hcs : CodesepInsensitive c.env) (hs : stack.length ≤ 1000) (he : ∀ x ∈ stack, x.length ≤ B) :
     (∃ e, evalScript c fl stack script = .error e) ↔ Ref.evalScript c.env fl stack script = none := by
-  have h := eval_equiv c fl stack script B hB hB2 hh hidx hcs hs he
+  have h := eval_equiv c fl stack script B hB hB2 hh hsh hcs hs he
   cases hm : evalScript c fl stack script with
   | ok s' => rw [hm] at h; simp [h]
   | error e => rw [hm] at h; simp [h]
 
 /-- `eval_stack`: same final stack when both succeed -/
 theorem eval_stack (c : Ctx) (fl : Flags) (stack : List Bytes) (script : Bytes) (B : Nat)
-    (hB : 520 ≤ B) (hB2 : B < 2 ^ 32) (hh : HashesOK c.env.hashes) (hidx : 0 ≤ c.inIdx)
+    (hB : 520 ≤ B) (hB2 : B < 2 ^ 32) (hh : HashesOK c.env.hashes) (hsh : SigHashOK c)
     (hcs : CodesepInsensitive c.env) (hs : stack.length ≤ 1000) (he : ∀ x ∈ stack, x.length ≤ B)
     (s1 s2 : List Bytes) (h1 : evalScript c fl stack script = .ok s1)
     (h2 : Ref.evalScript c.env fl stack script = some s2) : s1 = s2 := by
-  have h := eval_equiv c fl stack script B hB hB2 hh hidx hcs hs he
+  have h := eval_equiv c fl stack script B hB hB2 hh hsh hcs hs he
   rw [h1] at h
   rw [h] at h2
   exact Option.some.inj h2
@@ -180,9 +202,9 @@ theorem eval_stack (c : Ctx) (fl : Flags) (stack : List Bytes) (script : Bytes) 
 /-- `verify_equiv`: under each of the 12 admissible flag sets, for arbitrary scriptSig and
     scriptPubKey bytes, `VerifyScript` accepts exactly when the reference accepts -/
 theorem verify_equiv (c : Ctx) (fl : Flags) (sig spk : Bytes) (hf : fl.admissible = true)
-    (hh : HashesOK c.env.hashes) (hidx : 0 ≤ c.inIdx) (hcs : CodesepInsensitive c.env) :
+    (hh : HashesOK c.env.hashes) (hsh : SigHashOK c) (hcs : CodesepInsensitive c.env) :
     (verifyScript c fl sig spk = .ok ()) ↔ (Ref.verifyScript c.env fl sig spk = true) := by
-  have h := verifyScript_simT c fl sig spk hf hh hidx hcs
+  have h := verifyScript_simT c fl sig spk hf hh hsh hcs
   cases hm : verifyScript c fl sig spk with
   | ok u => rw [hm] at h; simp only [VerSim] at h; simp [h]
   | error e => rw [hm] at h; simp only [VerSim] at h; simp [h]
@@ -220,8 +242,8 @@ example (c : Ctx) (fl : Flags) (st : List Bytes) : Ref.evalScript c.env fl st []
 /-- the hypotheses of the full theorems are met, e.g. by a signature check that hashes the script code
     with every OP_CODESEPARATOR byte removed from its front -/
 example : CodesepInsensitive
-    { hashes := { sha1 := fun _ => [], ripemd160 := fun _ => [], sha256 := fun _ => [] },
-      sigCheck := fun body _ sc _ => body == sc.dropWhile (· == 0xab) } := by
+    ({ hashes := { sha1 := fun _ => [], ripemd160 := fun _ => [], sha256 := fun _ => [] },
+       sigCheck := fun body _ sc _ => body == sc.dropWhile (· == 0xab) } : Env) := by
   intro body pk sc ht
   simp [List.dropWhile]
 
